@@ -308,7 +308,9 @@ def selftest():
     import dataclasses
     memo_both = dataclasses.replace(memo("(origin.link_id, destination.link_id)"), name="twin-memo-keyed-by-both-links", kind="twin")
     memo_one = dataclasses.replace(memo("origin.link_id"), name="memo-keyed-by-origin-only", kind="break", rule="DU.search")
-    return [memo_both, memo_one,
+    # (memo_both is no longer a twin: since round 5 any table on the shared network object that route() writes is reported under C13 / C14 / C16
+    #  -- `IM.closure`, the road network is frozen after construction; the checker cannot tell a sound memo from a stale one (C14-n). DESIGN 6.5.)
+    return [memo_one,
         V("haversine-lon-lat", "nrel/hive/util/h3_ops.py", "        lat1, lon1 = h3.h3_to_geo(a)\n", "        lon1, lat1 = h3.h3_to_geo(a)\n", rule="BD.distance"),
         V("min-speed", OSM, "            time: Hours = dist / self.max_speed_kmph", "            time: Hours = dist / self.min_speed_kmph", rule="BD.heuristic"),
         V("max-of-posted", OSM, "            self.max_speed_kmph: Kmph = max(link.speed_kmph for link in link_helper.links.values())",
